@@ -87,7 +87,7 @@ def run():
         pspecs = pp.specs("parser", "c13", "c13_fail") + pp.specs("tokenparser", "c13", "c13_fail") + pp.specs("tpproto", "c13", "proto_fail")
         if t == "quick":
             pspecs = [x for x in pspecs if not any(k in x["name"] for k in ("p2_g2_c0", "p2_g2_c4", "p3_g1", "p0_g0"))]
-        fp = ex.submit(run_parser_groups, "C13", "c13p", ["parser", "tokenparser", "tpproto"], pspecs, out, 5, 1500, 40)
+        fp = ex.submit(run_parser_groups, "C13", "c13p", ["parser", "tokenparser", "tpproto"], pspecs, out, 8, 1500, 40)
         info, fams = run_toktrie_groups("C13", "c13", {"walk", "hasext"}, out, select=sel, extra_specs=None, harness_timeout_s=900, chop=True, jobs=12)
         infop = fp.result()
     info["kani_wall_s_parser_crate"] = infop.get("kani_wall_s", 0)
